@@ -321,6 +321,40 @@ func VerifC10_ParserWorker() {
 	}
 }
 
+// bufParser decodes a frame the way every library decoder holds opaque payload: util.Buffer
+type bufParser struct{ stop chan bool }
+
+func (p *bufParser) Parse(b []byte) (Message, error) {
+	m := new(Buffer)
+	err := m.UnmarshalBinary(b)
+	p.stop <- true
+	return m, err
+}
+
+// a delivered message stays unchanged while the next frame is received into the recycled buffer
+func VerifC10_DeliveredMessageSurvivesRecycling() {
+	l := vr.IntRange("framelen", 8, 12)
+	frame1, frame2 := vr.Bytes("frame1", l), vr.Bytes("frame2", l)
+	m := newTestStream(&scriptConn{}, 0, nil)
+	m.parser = &bufParser{stop: m.parserShutdown}
+	m.pool.Empty = make(chan *bytes.Buffer, 2)
+	m.pool.Full = make(chan *bytes.Buffer, 2)
+	buf := bytes.NewBuffer(make([]byte, 0, 16))
+	buf.Write(frame1)
+	m.pool.Full <- buf
+	m.parse()
+	vr.Assert(len(m.Inbound) == 1 && len(m.pool.Empty) == 1, "delivered-and-recycled")
+	if len(m.Inbound) != 1 || len(m.pool.Empty) != 1 {
+		return
+	}
+	msg := (<-m.Inbound).(*Buffer)
+	// the reader takes the recycled buffer and receives the next frame into it
+	b := <-m.pool.Empty
+	b.Write(frame2)
+	got, _ := msg.MarshalBinary()
+	vr.Assert(len(got) == l && vr.BytesEq(got, frame1), "delivered-message-unchanged-by-the-next-frame")
+}
+
 // a shutdown signal with nothing queued: the worker returns and touches nothing
 func VerifC10_ParserWorkerShutdown() {
 	p := &copyParser{}
